@@ -16,6 +16,8 @@ SCENARIOS = [
     ('reserved opcode (ProtocolError event)', dict(stream=TEXT + BAD + TEXT)),
     ('invalid utf-8 (critical ProtocolError event)', dict(stream=BADUTF)),
     ('rejected upgrade', dict(stream=b'', handshake='reject')),
+    ('application closes at Ready, then silence (Poll events while closing)', dict(stream=b'', connect_kwargs=dict(poll=0), reads='idle', close_at='ready')),
+    ('server Close echoed, then silence (Poll events while closing)', dict(stream=CLOSE, connect_kwargs=dict(poll=0), reads='idle-after-stream')),
 ]
 
 
@@ -23,6 +25,12 @@ def _run(sc, abandon_at, how):
     kw = dict(sc)
     hs = kw.pop('handshake', True)
     reads = kw.pop('reads', None)
+    close_at = kw.pop('close_at', None)
+    if close_at:
+        kw['react'] = lambda ws, ev, k, run: ws.close() if ev.name == close_at else None
+    if reads == 'idle-after-stream':
+        stream = kw.pop('stream')
+        kw['reads'] = lambda ws: [harness.response_for(ws.key) + stream, ('idle', 0), ('idle', 0), ('idle', 0), b'']
     if hs == 'reject':
         kw['reads'] = lambda ws: [b'HTTP/1.1 404 Not Found\r\n\r\n', b'']
     elif reads == 'idle':
